@@ -29,6 +29,13 @@ func isExitCodeCheck(i *Instruction) bool {
 		gr("loadOff") == int(wazevoapi.ExecutionContextOffsetCheckModuleExitCodeTrampolineAddress)
 }
 
+// IsZeroExtended32: v is the result of an inserted UExtend from 32 to 64 bits (ghost map "M:uext32",
+// written by the InsertInstruction contract): its upper half is zero, so the sum of two of them cannot
+// wrap around 64 bits. ZeroExtendedFrom: the value that was extended.
+func IsZeroExtended32(v Value) bool  { return verif_ghost_map("M:uext32", uint64(v)) == 1 }
+func ZeroExtendedFrom(v Value) Value { return Value(verif_ghost_map("M:uextArg", uint64(v))) }
+func isUExt32(i *Instruction) bool   { return i.opcode == OpcodeUExtend && i.u1 == 32<<8|64 }
+
 func b2g(b bool) int {
 	if b {
 		return 1
@@ -49,7 +56,9 @@ func b2g(b bool) int {
 //@   ensures[iadd] (raw.opcode == OpcodeIadd ==> gr("iaddX") == int(raw.v) && gr("iaddY") == int(raw.v2) && gr("iaddRet") == int(raw.rValue)) && (raw.opcode != OpcodeIadd ==> gr("iaddX") == old(gr("iaddX")) && gr("iaddY") == old(gr("iaddY")) && gr("iaddRet") == old(gr("iaddRet")))
 //@   ensures[icmp] (raw.opcode == OpcodeIcmp ==> gr("icmpX") == int(raw.v) && gr("icmpY") == int(raw.v2) && gr("icmpC") == int(raw.u1) && gr("icmpRet") == int(raw.rValue)) && (raw.opcode != OpcodeIcmp ==> gr("icmpX") == old(gr("icmpX")) && gr("icmpY") == old(gr("icmpY")) && gr("icmpC") == old(gr("icmpC")) && gr("icmpRet") == old(gr("icmpRet")))
 //@   ensures[load] (raw.opcode == OpcodeLoad ==> gr("loadPtr") == int(raw.v) && gr("loadOff") == int(raw.u1) && gr("loadRet") == int(raw.rValue)) && (raw.opcode != OpcodeLoad ==> gr("loadPtr") == old(gr("loadPtr")) && gr("loadOff") == old(gr("loadOff")) && gr("loadRet") == old(gr("loadRet")))
+//@   ensures[value-ids-are-fresh] verif_ghost_map_old("M:uext32", uint64(raw.rValue)) == 0
+//@   ensures[uext-map] verif_ghost_map_upd("M:uext32", uint64(raw.rValue), isUExt32(raw), 1) && verif_ghost_map_upd("M:uextArg", uint64(raw.rValue), isUExt32(raw), uint64(raw.v))
 //@   ensures[exit-check] gr("exitChecks") == old(gr("exitChecks")) + old(b2g(isExitCodeCheck(raw)))
 //@   ensures[oob] isOOBCheck(raw) ==> gr("oobChecks") == old(gr("oobChecks")) + 1 && gr("oobCode") == int(raw.u1) && gr("oobLen") == old(gr("icmpX")) && gr("oobAddX") == old(gr("iaddX")) && gr("oobAddY") == old(gr("iaddY")) && gr("oobArg") == old(gr("uextArg")) && gr("oobCeil") == old(gr("iconstVal")) && gr("oobViaExt") == old(b2g(gr("iaddX") == gr("uextRet") && gr("uextFT") == 32<<8|64)) && gr("oobViaConst") == old(b2g(gr("iaddY") == gr("iconstRet")))
 //@   ensures[not-oob] !isOOBCheck(raw) ==> gr("oobChecks") == old(gr("oobChecks")) && gr("oobCode") == old(gr("oobCode")) && gr("oobLen") == old(gr("oobLen")) && gr("oobAddX") == old(gr("oobAddX")) && gr("oobAddY") == old(gr("oobAddY")) && gr("oobArg") == old(gr("oobArg")) && gr("oobCeil") == old(gr("oobCeil")) && gr("oobViaExt") == old(gr("oobViaExt")) && gr("oobViaConst") == old(gr("oobViaConst"))
-//@   modifies raw.rValue, ghost("loadPtr"), ghost("loadOff"), ghost("loadRet"), ghost("exitChecks"), ghost("uextArg"), ghost("uextRet"), ghost("uextFT"), ghost("iconstVal"), ghost("iconstRet"), ghost("iaddX"), ghost("iaddY"), ghost("iaddRet"), ghost("icmpX"), ghost("icmpY"), ghost("icmpC"), ghost("icmpRet"), ghost("oobChecks"), ghost("oobCode"), ghost("oobArg"), ghost("oobCeil"), ghost("oobLen"), ghost("oobAddX"), ghost("oobAddY"), ghost("oobViaExt"), ghost("oobViaConst")
+//@   modifies raw.rValue, ghost("M:uext32"), ghost("M:uextArg"), ghost("loadPtr"), ghost("loadOff"), ghost("loadRet"), ghost("exitChecks"), ghost("uextArg"), ghost("uextRet"), ghost("uextFT"), ghost("iconstVal"), ghost("iconstRet"), ghost("iaddX"), ghost("iaddY"), ghost("iaddRet"), ghost("icmpX"), ghost("icmpY"), ghost("icmpC"), ghost("icmpRet"), ghost("oobChecks"), ghost("oobCode"), ghost("oobArg"), ghost("oobCeil"), ghost("oobLen"), ghost("oobAddX"), ghost("oobAddY"), ghost("oobViaExt"), ghost("oobViaConst")
